@@ -103,7 +103,10 @@ namespace occa {
                type.referenceToken)) {
             continue;
           }
-          operatorToken opToken(arg.source->origin,
+          // Unnamed arguments have no source token
+          operatorToken opToken((arg.source
+                                 ? arg.source->origin
+                                 : kernelAttr.source->origin),
                                 op::bitAnd);
           type.setReferenceToken(&opToken);
         }
